@@ -205,6 +205,37 @@ func (w *world) snapshot() *Snap {
 		}
 		sn.Facts["U|"+x] = fmt.Sprintf("FU2V %s %s", w.nameOf(x), val)
 	}
+	// m.repos itself, the node state by exact uuid, and -- for uuids that no longer name a node
+	// (their repo was deleted) -- resolution of a prefix: all must have forgotten them
+	live := map[string]bool{}
+	for _, n := range sn.Nodes {
+		live[n.UUID] = true
+	}
+	for _, x := range us {
+		val := "None"
+		if root, err := datastore.GetRepoRoot(dvid.UUID(x)); err == nil {
+			val = "(Some " + w.nameOf(string(root)) + ")"
+		}
+		sn.Facts["P|"+x] = fmt.Sprintf("FRepos %s %s", w.nameOf(x), val)
+		val = "None"
+		if lk, err := datastore.LockedUUID(dvid.UUID(x)); err == nil {
+			val = "(Some " + lib.CoqBool(lk) + ")"
+		}
+		sn.Facts["L|"+x] = fmt.Sprintf("FLocked %s %s", w.nameOf(x), val)
+		if !live[x] && len(x) >= 12 && !strings.ContainsAny(x, ":~") && len(sn.Repos) > 0 {
+			q := x[:10]
+			val = "None"
+			if y, _, err := datastore.MatchingUUID(q); err == nil {
+				val = "(Some " + w.nameOf(string(y)) + ")"
+			}
+			name := w.nameOf(x)
+			qc := coqStr(q)
+			if strings.HasPrefix(name, "t") {
+				qc = "(pre 10%nat " + name + ")"
+			}
+			sn.Facts["A|"+q] = fmt.Sprintf("FAddr %s %s", qc, val)
+		}
+	}
 	maxV := 0
 	for v := range w.uuidOf {
 		if v > maxV {
@@ -274,12 +305,19 @@ func delFact(w *world, key string) string {
 		return fmt.Sprintf("FNode %s %s 0 \"\" false [] []", w.nameOf(parts[1]), w.nameOf(parts[2]))
 	case "O":
 		return fmt.Sprintf("FRepoOf %s None", w.nameOf(parts[1]))
+	case "P":
+		return fmt.Sprintf("FRepos %s None", w.nameOf(parts[1]))
+	case "L":
+		return fmt.Sprintf("FLocked %s None", w.nameOf(parts[1]))
 	case "U":
 		return fmt.Sprintf("FU2V %s None", w.nameOf(parts[1]))
 	case "V":
 		return fmt.Sprintf("FV2U %s None", parts[1])
 	case "A":
 		i := strings.Index(parts[1], ":")
+		if i < 0 {
+			return fmt.Sprintf("FAddr %s None", coqStr(parts[1]))
+		}
 		return fmt.Sprintf("FAddr (cat %s %s) None", w.nameOf(parts[1][:i]), coqStr(parts[1][i:]))
 	default:
 		return fmt.Sprintf("FBV %s %s None", w.nameOf(parts[1]), coqStr(parts[2]))
@@ -692,6 +730,7 @@ type gen struct {
 	names   int
 	passOf  map[string]string // root uuid -> passcode
 	newPass string            // passcode of the newrepo request under way
+	dead    []string          // well-formed uuids of nodes whose repo was deleted: free for reuse
 	maxV    int
 	stats   map[string]int
 }
@@ -812,11 +851,20 @@ func (g *gen) badAssign(sn *Snap) SX {
 	}
 }
 
+// a fresh well-formed uuid, or one that a deleted repo has given back
+func (g *gen) freeUUID() string {
+	if len(g.dead) > 0 && g.rng.Chance(0.5) {
+		g.stats["reused_deleted_uuid"]++
+		return g.dead[g.rng.Intn(len(g.dead))]
+	}
+	return randHex(g.rng, 32)
+}
+
 func (g *gen) goodAssign() SX {
-	if g.rng.Chance(0.75) {
+	if g.rng.Chance(0.75) && !(len(g.dead) > 0 && g.rng.Chance(0.3)) {
 		return L("")
 	}
-	return L(randHex(g.rng, 32))
+	return L(g.freeUUID())
 }
 
 func (g *gen) freshName(prefix string) string {
@@ -831,11 +879,20 @@ func (g *gen) next(w *world, sn *Snap, i int) (Req, bool) {
 			g.passOf[k] = g.newPass
 		}
 	}
+	liveU := map[string]bool{}
 	for _, n := range sn.Nodes {
+		liveU[n.UUID] = true
 		if n.VersionID > g.maxV {
 			g.maxV = n.VersionID
 		}
 	}
+	g.dead = g.dead[:0]
+	for x := range w.known {
+		if !liveU[x] && len(x) == 32 && strings.Trim(x, hexd) == "" {
+			g.dead = append(g.dead, x)
+		}
+	}
+	sort.Strings(g.dead)
 	if len(g.pending) > 0 {
 		r := g.pending[0]
 		g.pending = g.pending[1:]
@@ -874,7 +931,7 @@ func (g *gen) next(w *world, sn *Snap, i int) (Req, bool) {
 	sort.Strings(dataRepos)
 
 	kinds := []string{"commit", "newversion", "branch", "tag", "merge", "resolve", "post", "newdata", "dataop", "newrepo", "delrepo"}
-	weights := []int{20, 16, 13, 8, 14, 5, 5, 8, 4, 5, 2}
+	weights := []int{20, 16, 13, 8, 14, 5, 5, 8, 4, 5, 3}
 	tot := 0
 	for _, x := range weights {
 		tot += x
@@ -1018,6 +1075,8 @@ func (g *gen) next(w *world, sn *Snap, i int) (Req, bool) {
 			default:
 				rq.Tag = L("c:" + t)
 			}
+		} else if len(g.dead) > 0 && rng.Chance(0.2) {
+			rq.Tag = L(g.freeUUID())
 		} else {
 			g.tags = append(g.tags, t)
 		}
@@ -1240,8 +1299,8 @@ func (g *gen) newRepo(sn *Snap, hostile bool) Req {
 	if g.rng.Chance(0.3) {
 		rq.Pass = "pw"
 	}
-	if g.rng.Chance(0.3) {
-		s := L(randHex(g.rng, 32))
+	if g.rng.Chance(0.3) || len(g.dead) > 0 && g.rng.Chance(0.5) {
+		s := L(g.freeUUID())
 		rq.Root = &s
 	}
 	if hostile {
@@ -1302,6 +1361,12 @@ func corpus() [][]Req {
 		{{Kind: "newrepo", Root: sp(L("xa"))}, {Kind: "commit", U: L("xa")}, {Kind: "newversion", U: L("xa"), Assign: L("")},
 			{Kind: "newrepo", Root: sp(L("xab"))}, {Kind: "commit", U: T(2)}, {Kind: "branch", U: T(2), Branch: L("bmaster"), Assign: L("")}},
 		{{Kind: "newrepo", Root: sp(L(""))}, {Kind: "newrepo"}},
+		// a deleted repo gives all its uuids back: the old child, then the old root, become roots
+		{{Kind: "newrepo"}, {Kind: "commit", U: T(1)}, {Kind: "newversion", U: T(1), Assign: L("")},
+			{Kind: "branch", U: T(1), Branch: L("x"), Assign: L("")}, {Kind: "delrepo", U: T(1)},
+			{Kind: "note", U: T(2)}, {Kind: "commit", U: P(3, 9)},
+			{Kind: "newrepo", Root: sp(T(2))}, {Kind: "newrepo", Root: sp(T(1))},
+			{Kind: "commit", U: T(2)}, {Kind: "newversion", U: T(2), Assign: T(3)}},
 		// resolve refused after it created deletion nodes
 		with(Req{Kind: "newdata", U: T(3), Type: "keyvalue", Name: "d1"},
 			Req{Kind: "newversion", U: T(2), Assign: L("")},
@@ -1364,13 +1429,15 @@ func main() {
 		maxSeq = o.N
 	}
 	rng := lib.NewRand(o.Seed)
-	hostile := 0
+	hostile, reused := 0, 0
 	for i := 0; i < maxSeq && bytes < budget; i++ {
 		g := &gen{rng: rng, n: 14 + rng.Intn(22), hostile: 0.3, passOf: map[string]string{}, stats: map[string]int{}}
 		so := runSeq(rng, func(w *world, sn *Snap, i int) (Req, bool) { return g.next(w, sn, i) })
 		add("random", so)
 		hostile += g.stats["hostile"]
+		reused += g.stats["reused_deleted_uuid"]
 	}
+	run.Dist["reused_deleted_uuid"] = reused
 	for k, v := range total {
 		run.Dist[k] = v
 	}
